@@ -39,7 +39,7 @@ import (
 type c08ScriptRecipe struct {
 	Script    bool   `json:"script"` // discriminates a script from a world recipe
 	Seed      uint64 `json:"seed"`
-	Variant   string `json:"variant"` // inflight-release | agreed-refeed | expire-refeed | none
+	Variant   string `json:"variant"` // inflight-release | agreed-refeed | expire-refeed | none | churn
 	NRes      int    `json:"nres"`
 	Seq0      uint64 `json:"seq0"`
 	Step      int    `json:"step"` // sequence numbers advance by this much per round
@@ -378,7 +378,9 @@ func c08RunScript(t *testing.T, rc c08ScriptRecipe, em *Emitter) []c08Shot {
 		addPool(r.Chance(60))
 	}
 	A.feed(pool, r.Perm(len(pool)))
-	B.feed(pool, r.Perm(len(pool)))
+	if rc.Variant != "churn" { // churn: node B only joins for the last wave (a sorter that has seen nothing before)
+		B.feed(pool, r.Perm(len(pool)))
+	}
 	var props []ocr2keepers.CheckResult
 	nl, nc := r.Range(0, 7), r.Range(1, 7)
 	for i := 0; i < nl+nc; i++ {
@@ -411,10 +413,8 @@ func c08RunScript(t *testing.T, rc c08ScriptRecipe, em *Emitter) []c08Shot {
 		return h
 	}
 	top := height + 500
-	depth := []int{10, 257, 300, 400}[r.Intn(4)]
-	if rc.Reorg {
-		depth = []int{257, 300, 400}[r.Intn(3)]
-	}
+	// block sources with a short window (fewer than 256 blocks per update) as well as long ones
+	depth := []int{5, 16, 100, 257, 300, 400}[r.Intn(6)]
 	publish := func(h ocr2keepers.BlockHistory, which int) {
 		for i, n := range nodes {
 			if which == 2 || which == i {
@@ -517,6 +517,30 @@ func c08RunScript(t *testing.T, rc c08ScriptRecipe, em *Emitter) []c08Shot {
 				}
 			}
 			info["empty-round-at-window-start"] = 1
+		} else if k > 0 && rc.Variant == "churn" {
+			// everything staged expires; a new wave of as many results arrives: more than 2^14 distinct work ids pass
+			// through node A's staging hook within one ten-sequence window
+			time.Sleep(c08StoreTTL + 35*time.Second)
+			for _, n := range nodes {
+				for _, kk := range append([]int{}, n.order...) {
+					n.unstage(kk)
+				}
+			}
+			var idx []int
+			for j := 0; j < rc.NRes; j++ {
+				idx = append(idx, addPool(r.Chance(60)))
+			}
+			A.feed(pool, idx)
+			if k == rc.Shots-1 {
+				perm := r.Perm(len(idx))
+				rev := make([]int, len(idx))
+				for j, q := range perm {
+					rev[j] = idx[q]
+				}
+				B.feed(pool, rev)
+			}
+			time.Sleep(1200 * time.Millisecond)
+			info["distinct-ids-in-window"] = len(pool)
 		} else if k > 0 {
 			// ordinary traffic between two rounds
 			if r.Chance(50) {
@@ -566,7 +590,7 @@ func c08RunScript(t *testing.T, rc c08ScriptRecipe, em *Emitter) []c08Shot {
 			info["same-work-candidates-again"] = 1
 		}
 		// block history
-		if k > 0 && (rc.Reorg || r.Chance(30)) {
+		if k > 0 && (rc.Reorg || r.Chance(30)) && rc.Variant != "churn" {
 			which := []int{2, 2, 2, 0, 1}[r.Intn(5)]
 			switch r.Intn(6) {
 			case 0: // the chain advances
@@ -579,7 +603,7 @@ func c08RunScript(t *testing.T, rc c08ScriptRecipe, em *Emitter) []c08Shot {
 				publish(mkHist(top, depth, 0, r.Range(100, 255)), which)
 				info["tail-corrected"]++
 			case 4: // shorter / longer view with the same head
-				depth = []int{5, 256, 257, 300, 400}[r.Intn(5)]
+				depth = []int{5, 16, 100, 256, 257, 300, 400}[r.Intn(7)]
 				publish(mkHist(top, depth, 0, 0), which)
 			case 5: // nothing new
 			}
@@ -728,7 +752,15 @@ func c08ScriptGen(r *Rng, i int) c08ScriptRecipe {
 	rc.BothEmpty = r.Chance(40)
 	rc.Reorg = i%3 == 1
 	rc.Readd = i%5 == 2
+	if i%40 == 13 {
+		return c08ChurnScript(rc.Seed)
+	}
 	return rc
+}
+
+// c08ChurnScript: three waves of 5500 results within one window (16 500 distinct work ids through one sorter), cap active.
+func c08ChurnScript(seed uint64) c08ScriptRecipe {
+	return c08ScriptRecipe{Script: true, Seed: seed, Variant: "churn", NRes: 5500, Seq0: 10*(seed%400) + 3, Step: 1, Shots: 3, Shot: -1}
 }
 
 func c08ScriptEdge() []c08ScriptRecipe {
@@ -739,6 +771,7 @@ func c08ScriptEdge() []c08ScriptRecipe {
 		{Script: true, Seed: 104, Variant: "none", NRes: 10, Seq0: 37, Step: 1, Shots: 8, Shot: -1, Reorg: true},
 		{Script: true, Seed: 105, Variant: "none", NRes: 10, Seq0: 47, Step: 1, Shots: 6, Shot: -1, Readd: true},
 		{Script: true, Seed: 106, Variant: "inflight-release", NRes: 30, Seq0: 59, Step: 1, Shots: 6, Shot: -1, Reorg: true, Readd: true, BothEmpty: true},
+		c08ChurnScript(107),
 	}
 }
 
